@@ -49,7 +49,7 @@ def is_unsigned_t(t):
 
 class Oct(object):
     """One octagon over variables vs (list of names).  m[i][j] bounds V_i - V_j, V_2k = v_k, V_2k+1 = -v_k."""
-    __slots__ = ('vs', 'ix', 'm', 'closed', 'empty')
+    __slots__ = ('vs', 'ix', 'm', 'closed', 'empty', 'facts')
 
     def __init__(self, vs, m=None):
         self.vs = vs
@@ -58,10 +58,12 @@ class Oct(object):
         self.m = m if m is not None else [[0 if i == j else INF for j in range(n)] for i in range(n)]
         self.closed = m is None
         self.empty = False
+        self.facts = frozenset()      # quotient facts ('div', x, y, c, k): k*x <= y - c <= k*x + k - 1
 
     def copy(self):
         o = Oct(self.vs, [r[:] for r in self.m])
         o.closed, o.empty = self.closed, self.empty
+        o.facts = self.facts
         return o
 
     # -- constraints -------------------------------------------------------------------------
@@ -230,6 +232,7 @@ class Oct(object):
             return self.copy()
         r = Oct(self.vs, [[max(a, b) for a, b in zip(ra, rb)] for ra, rb in zip(self.m, o.m)])
         r.closed = True
+        r.facts = self.facts & o.facts
         return r
 
     def widen(self, o, thresholds):
@@ -247,6 +250,7 @@ class Oct(object):
                     r[i][j] = min(t) if t else INF
         w = Oct(self.vs, r)
         w.closed = False
+        w.facts = self.facts & o.facts
         return w
 
     def describe(self, only=None):
@@ -685,6 +689,21 @@ class Analysis(object):
             v = ev['lhs']['name']
             op = ev.get('op')
             rhs = ev.get('rhs')
+            facts = o.facts
+            # y -= k * x (or y = y - k * x) under a quotient fact x == (y - c) / k: the remainder plus c
+            rem = self._remainder(o, v, op, rhs)
+            o.facts = frozenset(f for f in facts if v not in (f[1], f[2]))
+            if rem is not None:
+                o.forget(v)
+                o.add({v: 1}, rem[1])
+                o.add({v: -1}, -rem[0])
+                return o
+            # x = (y - c) / k with y >= c known
+            q = self._quotient(o, rhs) if op == '=' else None
+            if q is not None and q[0] != v:
+                o = self.assign(o, v, rhs)
+                o.facts = o.facts | {('div', v, q[0], q[1], q[2])}
+                return o
             if op == '=':
                 return self.assign(o, v, rhs)
             if op in ('++', '--'):
@@ -699,6 +718,37 @@ class Analysis(object):
                 e2 = {'k': 'bin', 'op': op[:-1], 'l': ev['lhs'], 'r': rhs}
                 return self.assign(o, v, e2)
         return o
+
+    def _quotient(self, o, e):
+        """(y, c, k) when e is (y - c) / k with y, a tracked variable, known to be at least c"""
+        if not (isinstance(e, dict) and e.get('k') == 'bin' and e.get('op') == '/' and isinstance(const_of(e.get('r')), int) and const_of(e['r']) > 0):
+            return None
+        k = const_of(e['r'])
+        num = e['l']
+        y, c = None, 0
+        if is_var(num) and num['name'] in self.vs_set:
+            y = num['name']
+        elif isinstance(num, dict) and num.get('k') == 'bin' and num.get('op') == '-' and is_var(num.get('l')) and num['l']['name'] in self.vs_set and isinstance(const_of(num.get('r')), int):
+            y, c = num['l']['name'], const_of(num['r'])
+        if y is None or o.bounds(y)[0] < c:
+            return None
+        return y, c, k
+
+    def _remainder(self, o, v, op, rhs):
+        """range of the new value of v for `v -= k * x` / `v = v - k * x` when ('div', x, v, c, k) holds"""
+        sub = None
+        if op == '-=':
+            sub = rhs
+        elif op == '=' and isinstance(rhs, dict) and rhs.get('k') == 'bin' and rhs.get('op') == '-' and is_var(rhs.get('l'), v):
+            sub = rhs['r']
+        if not isinstance(sub, dict) or sub.get('k') != 'bin' or sub.get('op') != '*':
+            return None
+        for a, b in ((sub['l'], sub['r']), (sub['r'], sub['l'])):
+            if is_var(a) and isinstance(const_of(b), int):
+                for f in o.facts:
+                    if f[0] == 'div' and f[1] == a['name'] and f[2] == v and f[4] == const_of(b):
+                        return (f[3], f[3] + f[4] - 1)
+        return None
 
     def refine(self, o, r):
         """list of octagons for o under relation r = (l, op, rhs)"""
